@@ -6,10 +6,12 @@ mod sim;
 use drive::*;
 use std::io::Write;
 
-fn adapter(name: &str) -> Option<Box<dyn Adapter>> {
+fn adapter(name: &str, variant: &str) -> Option<Box<dyn Adapter>> {
+    let _ = variant;
     Some(match name {
         "bulkhead" => Box::new(adapters::bulkhead::BulkheadAd::new()),
         "ratelimiter" => Box::new(adapters::ratelimiter::RateLimiterAd::new()),
+        "circuitbreaker" => Box::new(adapters::circuitbreaker::CbAd::new(variant)),
         _ => return None,
     })
 }
@@ -34,7 +36,8 @@ fn main() {
     std::panic::set_hook(Box::new(|_| {}));
     let mut lines: Vec<String> = vec![];
     let stats;
-    if let Some(mut ad) = adapter(&comp) {
+    let variant = arg(&args, "--variant").unwrap_or_default();
+    if let Some(mut ad) = adapter(&comp, &variant) {
         let rt = tokio::runtime::Builder::new_current_thread().enable_time().start_paused(true).build().unwrap();
         stats = rt.block_on(async {
             match mode.as_str() {
